@@ -73,7 +73,7 @@ for _p, _txt in (('C02', 'every dial of every generated spec must complete the h
                  ('C11', 'cipher suites, extension order and bodies and the transport parameter list on the wire equal the spec (or a permutation when randomised); TransportParameterIDs() and the reference fingerprint agree with the wire')):
     PROPS[_p] = {
         'level': 'exploration', 'budget': {'quick': 75, 'thorough': 1500},
-        'parts': [{'sim': 'dial', 'env': {'VERIF_ORACLES': _p}}],
+        'parts': [{'sim': 'dial', 'env': {'VERIF_ORACLES': _p}}] + ([{'sim': 'flightlab'}] if _p == 'C09' else []),
         'rule': DIAL_RULE, 'real_vs_stub': 'real: UTransport + spec machinery + uTLS + in-tree server; stub: network, clock, randomness (seeded), certificates',
         'assumptions': ['expected ClientHello extension bodies are read from the spec objects uTLS serialised for that dial'],
         'level_text': 'seeded search over spec families, dial histories and first-flight fault schedules on whole connections: ' + _txt,
@@ -159,6 +159,21 @@ PROPS['C14'] = {
     'assumptions': ['bytes of every datagram delivered to the server are counted as received (upper bound of what the server may count)'],
     'level_text': 'seeded search over arrival/loss patterns and token mutations on whole connections with amplification accounting at the router and AddrVerified observed through GetConfigForClient',
     'level_note': W_NOTE, 'technique': W_TECH,
+}
+
+PROPS['C09']['rule'] += ('; K:flightlab: real initialCryptoStream + packetPacker/uPacketPacker + ack handler with a model TLS stack (ClientHello 0 bytes - 4 datagrams, SNI/ECH at varying positions, '
+                         'HelloRetryRequest), every builder kind with seeded parameterisations incl. negative ranges and invalid configurations, a lossy model peer, PTO and retransmission re-framing; '
+                         'every datagram parsed by the wire parser and by an independent byte reader')
+PROPS['C15'] = {
+    'level': 'fault_enumeration', 'budget': {'quick': 70, 'thorough': 1200},
+    'parts': [{'sim': 'streamsmap', 'share': 2}, {'sim': 'streamsmap', 'mode': 'sweep', 'share': 1}],
+    'rule': 'seeded histories over the real streamsMap (both perspectives, both stream types, limits 0-5 and up to 40): peer frames with arbitrary, skipped, completed and out-of-limit stream IDs and wrong directions, MAX_STREAMS, '
+            'concurrent Open/OpenSync/Accept callers with cancellation (strict histories with quiescence between calls check FIFO; burst histories with seeded scheduler perturbation check the order-free clauses), completions in any order, 0-RTT reset, close; '
+            'plus a bounded sweep of all histories up to length 4 (quick) / 5 (thorough) over a 14-op alphabet with limits 0-2; non-trivial = adversarial op fired or non-trivial history; distinct = distinct abstract histories',
+    'real_vs_stub': 'real: streamsMap, incoming/outgoing maps, Stream/SendStream/ReceiveStream objects, flow controllers; stub: peer, connection (fake sender)',
+    'assumptions': [],
+    'level_text': 'bounded exhaustive sweep of short histories plus seeded search over long and concurrent histories against a reference model of limits, credit, ID discipline, FIFO service and exactly-once acceptance',
+    'level_note': K_NOTE, 'technique': K_TECH,
 }
 
 NOT_APPLICABLE = {
